@@ -129,3 +129,36 @@ Proof.
   intros stack i. unfold Multi_get_authkey. induction stack as [|m t IH]; [reflexivity|].
   cbn [for_first multi_get]. unfold cred_truthy at 1. destruct (m i) as [c|]; [reflexivity|exact IH].
 Qed.
+
+(* ---- env.py ------------------------------------------------------------------------------------------------------- *)
+(* str.upper is a parameter; what is assumed of it is what Python's does to these four ASCII constants *)
+Section EnvSrc.
+Variable upper : bytes -> bytes.
+Hypothesis up_secret : upper (B "secret") = B "SECRET".
+Hypothesis up_owner : upper (B "owner") = B "OWNER".
+Hypothesis up_pub : upper (B "pubchans") = B "PUBCHANS".
+Hypothesis up_sub : upper (B "subchans") = B "SUBCHANS".
+
+Lemma env_key_src : forall i v F, upper v = F ->
+  py_join (B "_") [B "HPFEEDS"; upper i; upper v] = env_key upper i F.
+Proof. intros i v F ->. reflexivity. Qed.
+
+Lemma env_list_src : forall env i v F, upper v = F -> Env_get_list upper env i v = env_list upper env i F.
+Proof.
+  intros env i v F H. unfold Env_get_list, Env_get_key, env_list, env_dict_get, py_split_comma, nonempty.
+  cbv zeta. rewrite (env_key_src i v F H).
+  destruct (assocb (env_key upper i F) env); reflexivity.
+Qed.
+
+Theorem env_src_eq : forall env i, Env_get_authkey upper env i = env_get upper env i.
+Proof.
+  intros env i. unfold Env_get_authkey, env_get. cbv zeta.
+  rewrite (env_list_src env i _ _ up_pub), (env_list_src env i _ _ up_sub).
+  unfold Env_get_key, env_dict_get. cbv zeta.
+  rewrite (env_key_src i _ _ up_secret), (env_key_src i _ _ up_owner).
+  destruct (assocb (env_key upper i (B "SECRET")) env) as [s|]; [|reflexivity].
+  cbn [optstr_truthy opt_str]. unfold str_truthy. rewrite negb_involutive.
+  destruct (bytes_eqb s []); [reflexivity|].
+  destruct (assocb (env_key upper i (B "OWNER")) env); reflexivity.
+Qed.
+End EnvSrc.
